@@ -451,6 +451,13 @@ def run(ctx):
     if not nfailed:
         ctx.machinery("vacuity guard: the unpruned model has no failing upload")
     paths = list(tlc.transition_cover(nodes, edges, inits, rng=ctx.rng))
+    # a cover path may stop in the middle of an upload: run the (deterministic) remaining phases too
+    succ = {}
+    for a, act, b in edges:
+        succ.setdefault(a, []).append((act, b))
+    for p in paths:
+        while '/\\ pc = "idle"' not in nodes[p[-1][1]] and len(succ.get(p[-1][1], ())) == 1:
+            p.append(succ[p[-1][1]][0])
     ctx.cov["graph"] = {"nodes": len(nodes), "edges": len(edges), "cover_paths": len(paths), "failed_states": nfailed}
     cache = {}
     groups = {}
